@@ -194,6 +194,15 @@ def gen_lines(ctx):
             cs = (base * n)[:n - 1] + [NL]
             for opt in ((1, 0, 256), (2, 0, 256), (1, -1, 256)) if ctx.quick else ((1, 0, 256), (2, 0, 256), (1, -1, 256), (0, 0, 256)):
                 cases.append((cs, opt))
+    # lines around linelimit counted in characters AND in bytes, each with a run that reordering must reverse (shared with
+    # C18: ren_common.gen_limit_lines; limits 8, 16 and the default 256).  The lines above hold no such run, so their
+    # visual order is the logical one on both paths of ren_position.  A sample here (the model's column functions need
+    # 0.2 .. 0.6 s on a 16-character line, seconds on 256 characters); C18 runs all of them for the order array alone.
+    lim = rc.gen_limit_lines(rng.fork('limit'), ctx.quick)
+    small = [c for c in lim if len(c[0]) <= 64]
+    big = [c for c in lim if len(c[0]) > 64]
+    cases += small[::7] if ctx.quick else small
+    cases += big[::12] if ctx.quick else big[::3]
     return cases
 
 
